@@ -145,3 +145,23 @@ prop("C18", "translation_validation", "translation validation of derived writers
      "Rules H2, W5, P2.",
      ["values produced by value constructors are not decided"],
      "bounded by the corpus of histories", "DESIGN.md §3 C18")
+
+prop("C09", "translation_validation", "translation validation of generated ABI trampolines (caller vs callee message languages from THIR) + catch_unwind / panic-payload rules",
+     "For every exported method of the corpus traits (every supported argument kind, 0..3 arguments) and every compatibility-mask "
+     "assignment: the argument message the caller trampoline writes is what the callee trampoline reads before it invokes the "
+     "implementation method with that number, and the reply it writes is what the caller's result receiver reads (W9); implementation "
+     "code runs only inside catch_unwind (A1) and both panic payload kinds are forwarded (A2).",
+     "Rules W9 (≈40 methods × mask assignments), A1, A2.",
+     ["equality of observed values, drop counts at run time and post-panic usability are not decided",
+      "ownership pairing (Box::into_raw vs Owning::Owned) is not yet modelled"],
+     "mirror-image property of generated code on the corpus; the runtime effect is not observed", "DESIGN.md §3 C09")
+
+prop("C10", "translation_validation", "value-origin analysis of the version labels on all four legs of the generated trampolines + negotiation and ledger tables",
+     "The version that labels a message is the version it is encoded in: caller arguments, header and RegularCall use "
+     "template.effective_version; the callee decodes with the header's version and encodes and labels its reply with the effective_version "
+     "it was called with; the caller decodes the reply with the reply header's version (N3). Negotiation takes min(own, callee) (N1); a "
+     "method missing in the implementation panics at call time, after a successful match of its number (N4); signature changes are "
+     "rejected by the definition comparison (Q4); trampolines agree at every mask assignment (W9).",
+     "Rules N3 (every corpus trait and method), N1, N4, W9, Q4.",
+     ["values are not decided; interface families are the enumerated ones"],
+     "origin of version values in generated code", "DESIGN.md §3 C10")
